@@ -203,6 +203,9 @@ Den(P) == DenProd(P, ChoiceSeq(P), 1)
 (* Classification used by C01 / C02 / C30 *)
 
 MustAnswer(P)  == ~HasNegativeCycle(FullGround(P))
-MustReject(P, ev) == ev.posW > 0 /\ ev.undefW = ev.posW
+\* some possible (positive-weight) world leaves a QUERY or EVIDENCE atom undefined in its well-founded model.
+\* (Undefined atoms that the queries do not depend on are not counted: a goal-directed engine never sees them -
+\* that is the 'only after goal-directed pruning' latitude of C02.)
+MustReject(P, ev) == ev.undefW > 0
 
 =============================================================================
